@@ -41,6 +41,8 @@ class Sim:
         self.conns = {}
         self.pkts = {}
         self.on_packet = None
+        self.escrow = {}
+        self.observers = []
 
     # -- trace ---------------------------------------------------------------------
 
